@@ -118,6 +118,34 @@ def check(tier, seed):
             a, b = ck.value()
             cases.append(Case('checksum-observe-reset', 'ck ' + C.hexs(bytes(since)), f'{a} {b}' if ok else 'observation-wrong',
                               {'ops': trace, 'since_last_reset': since}, nontrivial=False, kind='observe-reset'))
+        # copies of a checksum object (copy.copy / copy.deepcopy / pickle) continue independently of the original
+        import copy
+        import pickle
+        for _ in range(150 if tier == 'quick' else 4000):
+            h0 = [rng.randrange(256) for _ in range(rng.randrange(0, 9))]
+            t1 = [rng.randrange(256) for _ in range(rng.randrange(1, 6))]
+            t2 = [rng.randrange(256) for _ in range(rng.randrange(0, 6))]
+            how = rng.choice(['copy', 'copy', 'deepcopy', 'pickle'])
+
+            def run():
+                _, _, ck = impl_hist(h0)
+                c2 = copy.copy(ck) if how == 'copy' else copy.deepcopy(ck) if how == 'deepcopy' else pickle.loads(pickle.dumps(ck))
+                reset_copy = rng.random() < 0.3
+                if reset_copy:
+                    c2.reset()
+                for x in t1:
+                    ck.add(x)
+                for x in t2:
+                    c2.add(x)
+                return ck.value(), c2.value(), reset_copy
+            try:
+                v1, v2, reset_copy = run()
+            except Exception as e:      # noqa: an object that cannot be copied this way is not a property matter
+                res.notes['uncopyable'] = f'{how}: {type(e).__name__}'
+                continue
+            cases.append(Case('checksum-copy', 'ck ' + C.hexs(bytes(h0 + t1)), f'{v1[0]} {v1[1]}', {'ops': h0 + t1, 'copied_by': how, 'role': 'original'}, kind='copy'))
+            cases.append(Case('checksum-copy', 'ck ' + C.hexs(bytes(([] if reset_copy else h0) + t2)), f'{v2[0]} {v2[1]}',
+                              {'ops': ([] if reset_copy else h0) + t2, 'copied_by': how, 'role': 'copy', 'original_then_got': t1}, kind='copy'))
         # step function from states reached through a 2-byte prefix
         ck = Checksum()
 
@@ -144,7 +172,6 @@ def check(tier, seed):
                 for b in range(256):
                     p1, p2 = (b - a) % 256, (2 * a - b) % 256
                     for x in range(256):
-                        ck._cka = 0   # reset() inlined for speed is NOT used: call the real reset
                         ck.reset()
                         add(p1)
                         add(p2)
